@@ -110,7 +110,7 @@ func TestVerif_C02(t *testing.T) {
 		quick := c.Quick()
 		grid := c02Grid(!quick)
 		small := []c02Cfg{{4096, 2, 0}, {40, 2, 1}, {4096, 1, 2}, {0, 0, 5}}
-		c.Rule(fmt.Sprintf("inputs: (a) every byte string of length <=2 and every 3-byte string over a %d-byte boundary alphabet (thorough: additionally ALL 3-byte strings under the configuration table=4096 preload=2 maxstr=0, unsplit); (b) every sequence of 1..3 fragments of the representation-fragment alphabet (%d fragments; thorough: %d, plus all 4-sequences of the first 10), each also with its last fragment cut at every byte; every byte string of length 4 over a 12-byte representation-aware alphabet (thorough: also length 5 under 4 configurations incl. one with a single preloaded entry); (c) integers with 1..11 continuation octets in every integer position (index, name index, table size, string lengths) in 4 fill patterns x 4 terminations x {nothing, one field} following. "+
+		c.Rule(fmt.Sprintf("inputs: (a) every byte string of length <=2 and every 3-byte string over a %d-byte boundary alphabet (thorough: additionally ALL 3-byte strings under the configuration table=4096 preload=2 maxstr=0, unsplit); (b) every sequence of 1..3 fragments of the representation-fragment alphabet (%d fragments; thorough: %d, plus all 4-sequences of the first 10), each also with its last fragment cut at every byte; every byte string of length 4 over a 10-byte (thorough: 12-byte) representation-aware alphabet (thorough: also length 5 under 4 configurations incl. one with a single preloaded entry); (c) integers with 1..11 continuation octets in every integer position (index, name index, table size, string lengths) in 4 fill patterns x 4 terminations x {nothing, one field} following. "+
 			"each input under every configuration of max string length {0,1,5} x table size {4096,40,0} x preloaded entries {2,0} (thorough: {0,1,2,5} x {4096,40,0,70} x {2,0}; here %d), as one block and as two blocks (Close in between) split at every interior position. non-trivial = input for which, in some configuration, the reference decoded at least one complete representation and the run was compared",
 			len(c02ByteAlphabet(quick)), len(c02Fragments(false)), len(c02Fragments(true)), len(grid)))
 		c.Assume("a table size update that follows a field representation in the same block is outside the compared domain: RFC 7541 §4.2 says where an encoder must put it but not what a decoder does otherwise (the implementation accepts it iff its table is empty); fields emitted before it are still compared")
@@ -257,7 +257,10 @@ func TestVerif_C02(t *testing.T) {
 		}, check)
 
 		// (b') representation-aware byte strings
-		aware := []byte{0x00, 0x01, 0x82, 0x40, 0xbe, 0x7f, 0x80, 0x20, 0x3f, 0x1f, 0xff, 0x61}
+		aware := []byte{0x00, 0x82, 0x40, 0xbe, 0x7f, 0x80, 0x20, 0x3f, 0xff, 0x61, 0x01, 0x1f}
+		if quick {
+			aware = aware[:10]
+		}
 		vx.Enumerate(c, "aware-bytes", vx.Opts{NoSample: true}, func(yield func(c02Case) bool) {
 			vx.Strings(aware, 4, 4, func(b []byte) bool { return yield(c02Case{"bytes", c02Hex(b)}) })
 		}, check)
